@@ -182,6 +182,7 @@ func main() {
 	env := func() []fhirpath.EvaluateOption {
 		return []fhirpath.EvaluateOption{
 			evalopts.EnvVariable("nonascii", system.String("héllo€\U0001F600é")),
+			evalopts.EnvVariable("euro", system.String("€")),
 			evalopts.EnvVariable("multi", system.Collection{system.Integer(1), system.Integer(2)}),
 			evalopts.EnvVariable("cx", lib.Child(mr1, "name", 0)),
 			evalopts.EnvVariable("node", mr1),
